@@ -60,18 +60,33 @@ def process_failures(pid, tier, seed, spaces, aggs):
     bulk_seen = {}
     t_min = time.time()
     nmin = 0
-    pre_seen = set()
+    import re as _re
     for sp, a in zip(spaces, aggs):
-        for f in a['fails']:
+        todo = a['fails']
+        if sp.kind == 'choice':
+            # round-robin over buckets of (first failing observable with indices blanked) so that one noisy
+            # root cause cannot starve the others of the bounded minimisation budget (60 runs / 60 s)
+            buckets = {}
+            seen_pre = set()
+            for f in a['fails']:
+                pre = (tuple(sorted(f[1])), f[2])
+                if pre in seen_pre:
+                    continue
+                seen_pre.add(pre)
+                key = _re.sub(r'\d+', 'N', f[2]) + '|' + _re.sub(r'[0-9a-fx]{3,}', 'N', str(f[4]))[:40]
+                buckets.setdefault(key, []).append(f)
+            todo = []
+            rnd = 0
+            while any(len(b) > rnd for b in buckets.values()) and rnd < 4:
+                for b in buckets.values():
+                    if len(b) > rnd:
+                        todo.append(b[rnd])
+                rnd += 1
+        for f in todo:
             if len(violations) >= core.MAX_SIGNATURES:
                 break
             if sp.kind == 'choice':
                 choices, labels, path, exp, obs = f
-                pre = (sp.name, tuple(sorted(labels)), path)
-                if pre in pre_seen:
-                    continue
-                pre_seen.add(pre)
-                # minimisation is bounded: at most 60 failures / 60 s per run (simplest first)
                 if nmin >= 60 or time.time() - t_min > 60:
                     continue
                 nmin += 1
